@@ -17,7 +17,7 @@ Host attribute fields that are empty are not set on the class (the connector's d
 Usage: sshimpl.py --paramiko {0,1}    (line protocol: one case per line on stdin)
 """
 import contextlib
-import gc
+import gc, zlib
 import pathlib
 import sys
 import types
@@ -285,6 +285,19 @@ class Impl:
                 raise BadCase()
         except (BadCase, ValueError, IndexError):
             return "bad-op"
+        # every other case: the same action runs once BEFORE the recorded one (and, for a copy, a connect of every
+        # ssh machine involved) — a command line depends on the machine's configuration and on nothing that an
+        # earlier connect or copy left behind
+        if zlib.crc32(line.encode()) % 2 == 1:
+            warm = [action]
+            if op[0] == "copy":
+                warm += [(lambda m=m: self.do_connect(m)) for m in (insts[int(op[1])], insts[int(op[3])])
+                         if isinstance(m, self.connector.SSHConnector)]
+            for w in warm:
+                try:
+                    w()
+                except Exception:
+                    pass
         REG.events = []
         try:
             action()
